@@ -8,6 +8,7 @@ CONSTANT ScHeap0 <- C01Heap0
 CONSTANT ScBound <- C01Bound
 CONSTANT MaxN = 12
 CONSTANT Tier = "quick"
+CONSTANT KeepHist = FALSE
 INVARIANT Lockstep
 INVARIANT BudgetInv
 INVARIANT ResultInv
